@@ -268,6 +268,28 @@ def truncate_hs(
     return truncated_hs
 
 
+def calc_eps_truncate_for_spectrum(eigenvals: np.ndarray, eps: float = None) -> float:
+    """returns the truncation threshold for a Hermitian matrix rebuilt from an eigendecomposition.
+
+    The rounding noise of ``eigenvecs @ diag @ eigenvecs^dagger`` is proportional to the largest
+    eigenvalue, so the (absolute) threshold ``eps`` is scaled by ``max(1, max|eigenvals|)``.
+
+    Parameters
+    ----------
+    eigenvals : np.ndarray
+        eigenvalues of the matrix.
+    eps : float, optional
+        threshold for a matrix of unit scale, by default :func:`~quara.settings.Settings.get_atol`
+
+    Returns
+    -------
+    float
+        threshold scaled to the magnitude of the matrix.
+    """
+    eps = Settings.get_atol() if eps is None else eps
+    return eps * max(1.0, float(np.max(np.abs(eigenvals))))
+
+
 def truncate_and_normalize(matrix: np.ndarray, eps: float = None) -> np.array:
     """truncates entries smaller than eps and normalizes to the matrix whose sum of each row is 1.
 
